@@ -1452,6 +1452,106 @@ def split_tuple_lists(fn):
     return fn
 
 
+def inline_private_helpers(fn, functions, listed, depth=0):
+    """AST pre-pass: a statement-level call `x = _helper(args)` / `a, b = _helper(args)` / `_helper(args)` of a private
+    module-level function that is straight enough (no early return: at most one `return`, as its last statement; no
+    nested def / lambda / global / nonlocal / yield; not recursive; not one of the listed operations) is replaced by
+    the helper's body with its locals renamed apart, the parameters bound to the argument expressions by plain
+    assignments (Python passes references, and so does an assignment) and the returned expression assigned to the
+    targets.  The reference behaviour is exactly that of the call.  This is what lets a helper that appends to a Python
+    list OWNED BY ITS CALLER be analysed with the caller's knowledge of that list (a call boundary hides that the list
+    is a local container whose mutation is not a write to a protobuf object)."""
+    counter = [0]
+
+    def eligible(name):
+        node = functions.get(name)
+        if node is None or not name.startswith('_') or name in listed or node.decorator_list:
+            return None
+        a = node.args
+        if a.vararg or a.kwarg or a.posonlyargs or a.kwonlyargs:
+            return None
+        body = [x for x in node.body if not (isinstance(x, ast.Expr) and isinstance(x.value, ast.Constant))]
+        rets = [x for x in ast.walk(node) if isinstance(x, ast.Return)]
+        if len(rets) > 1 or (rets and (not body or body[-1] is not rets[0])):
+            return None
+        for x in ast.walk(node):
+            if isinstance(x, (ast.FunctionDef, ast.Lambda, ast.Global, ast.Nonlocal, ast.Yield, ast.YieldFrom, ast.Try,
+                              ast.With, ast.ClassDef)) and x is not node:
+                return None
+            if isinstance(x, ast.Call) and isinstance(x.func, ast.Name) and x.func.id == name:
+                return None
+        return node, body
+
+    def expand(call, targets, at):
+        if not (isinstance(call, ast.Call) and isinstance(call.func, ast.Name)):
+            return None
+        el = eligible(call.func.id)
+        if el is None or any(isinstance(x, ast.Starred) for x in call.args) or any(k.arg is None for k in call.keywords):
+            return None
+        node, body = el
+        params = [x.arg for x in node.args.args]
+        if len(call.args) > len(params):
+            return None
+        defaults = dict(zip(params[len(params) - len(node.args.defaults):], node.args.defaults))
+        actual = dict(zip(params, call.args))
+        for k in call.keywords:
+            if k.arg not in params or k.arg in actual:
+                return None
+            actual[k.arg] = k.value
+        for q in params:
+            if q not in actual:
+                if q not in defaults or not isinstance(defaults[q], ast.Constant):
+                    return None
+                actual[q] = defaults[q]
+        counter[0] += 1
+        tag = '__%s_%d_%d' % (call.func.id.strip('_'), at.lineno, counter[0])
+        local = set(params)
+        for x in ast.walk(node):
+            if isinstance(x, ast.Name) and isinstance(x.ctx, (ast.Store, ast.Del)):
+                local.add(x.id)
+
+        class Ren(ast.NodeTransformer):
+            def visit_Name(self, n):
+                if n.id in local:
+                    return ast.copy_location(ast.Name(id=n.id + tag, ctx=n.ctx), n)
+                return n
+        import copy as _copy
+        out = [ast.Assign(targets=[ast.Name(id=q + tag, ctx=ast.Store())], value=actual[q]) for q in params]
+        for st in body:
+            st = Ren().visit(_copy.deepcopy(st))
+            if isinstance(st, ast.Return):
+                if targets is not None:
+                    out.append(ast.Assign(targets=targets, value=st.value if st.value is not None else ast.Constant(value=None)))
+                elif st.value is not None:
+                    out.append(ast.Expr(value=st.value))
+            else:
+                out.append(st)
+        if targets is not None and not any(isinstance(x, ast.Return) for x in body):
+            out.append(ast.Assign(targets=targets, value=ast.Constant(value=None)))
+        for o in out:
+            ast.copy_location(o, at)
+            for sub in ast.walk(o):
+                if not hasattr(sub, 'lineno'):
+                    ast.copy_location(sub, at)
+        return out
+
+    class T(ast.NodeTransformer):
+        def visit_Assign(self, n):
+            self.generic_visit(n)
+            r = expand(n.value, n.targets, n)
+            return r if r is not None else n
+
+        def visit_Expr(self, n):
+            self.generic_visit(n)
+            r = expand(n.value, None, n)
+            return r if r is not None else n
+    new = T().visit(fn)
+    ast.fix_missing_locations(new)
+    if counter[0] and depth < 2:
+        return inline_private_helpers(new, functions, listed, depth + 1)
+    return new
+
+
 class World:
     """all operations translated from one module."""
 
@@ -1460,7 +1560,11 @@ class World:
         src = inspect.getsource(module)
         self.tree = ast.parse(src)
         self.line0 = 1
-        self.functions = {n.name: split_tuple_lists(n) for n in self.tree.body if isinstance(n, ast.FunctionDef)}
+        raw = {n.name: n for n in self.tree.body if isinstance(n, ast.FunctionDef)}
+        listed = {py for _, py, _, _ in LISTED}
+        import copy as _copy
+        self.functions = {name: split_tuple_lists(inline_private_helpers(_copy.deepcopy(n), raw, listed))
+                          for name, n in raw.items()}
         self.scalar_attrs, self.pb_attrs = schema_attrs()
         self.ops = {}
         self.in_progress = set()
